@@ -43,7 +43,10 @@ MANIFEST = dict(
          "#NOTES item in file order with its header fields; per kind (hits, holds, rolls, mines, lifts, fakes, keysounds) a permutation of "
          "the denoted objects (column, time, length) - nothing invented, nothing dropped - with times = Integrate.time_of of the row "
          "position (beat 4m+4r/n) under the #BPMS script from -#OFFSET, holds/rolls paired with the closing '3'; every tempo change in each "
-         "chart's tempo list at its ms position; hence the oracle read_spec (tolerance 0) accepts the model's result. Proved bottom-up: "
+         "chart's tempo list at its ms position; hence the oracle read_spec (tolerance 0) accepts the model's result. "
+         "C02_sm_read_tempo_list_on_lines: if moreover every #BPMS beat is a multiple of 4 (decidable guard sm_tempo_on_lines) the reader "
+         "does not reseat and every chart's tempo list IS the denoted list - same count, same order, each row (ms position, the file's bpm, "
+         "metronome 4) (tempo_exact; used by C09 for the StepMania-source pairs). Proved bottom-up: "
          "equivalence of the two token-level parsers on the dialect (comment removal commutes with the ';' ':' ',' splits), row extraction, "
          "simulation of the reference interpreter by the reader loop (completeness), the C10 domain DERIVED from the 1/48 grid (table "
          "obligation: every k/48 is a snapper fraction), C11 reseating keeps every tempo time, strict monotonicity of time for key "
